@@ -30,6 +30,7 @@ var (
 	errConflictSameFile               = errors.New("conflict: same file")
 	errDefinitionDoesNotExistInSchema = errors.New("definition does not exist in schema")
 	errCannotGenerateReferencedType   = errors.New("cannot generate referenced type")
+	errNullSchema                     = errors.New("schema is null")
 )
 
 type Generator struct {
